@@ -7,6 +7,8 @@ Local Open Scope Q_scope.
 Definition mq (M : list (list Q)) (i j : nat) : Q := nth j (nth i M []) 0.
 Fixpoint qpow (x : Q) (k : nat) : Q := match k with O => 1 | S k' => Qred (x * qpow x k') end.
 (* k-ARV: true values V, simulated values Vt, favourites, last thresholds tk, rho, reported winner y (0-based) *)
+(* relative rounding error allowed for a float sum of at most a few hundred non-negative doubles *)
+Definition fsum_slack : Q := 1 # 1000000000000.
 Definition karv_hyp_case : Type := (list (list Q) * list (list Q) * list nat * list Q * Q * nat * nat)%type.
 Definition chk_karv_hyp (c : karv_hyp_case) : bool :=
   let '(V, Vt, fav, tk, rho, k, y) := c in
@@ -20,8 +22,9 @@ Definition chk_karv_hyp (c : karv_hyp_case) : bool :=
   forallb (fun i => Qle_bool (mQ * nth i tk 0) (rho * mq Vt i (nth i fav O))) I &&                                (* H3 *)
   forallb (fun i => (nth i fav O <? m)%nat) I &&                                                                  (* H4 *)
   (y <? m)%nat &&
-  forallb (fun j => Qle_bool (sumQ (fun i => mq Vt i j) I) (sumQ (fun i => mq Vt i y) I)) J &&                    (* Hmax *)
-  forallb (fun x => Qle_bool (sumQ (fun i => mq V i x) I) (2 * rho * sumQ (fun i => mq V i y) I)) J.              (* conclusion, for every x *)
+  (* Hmax up to the rounding of the implementation's float column sums (karv_distortion_slack, delta = 1e-12) *)
+  forallb (fun j => Qle_bool (sumQ (fun i => mq Vt i j) I) ((1 + fsum_slack) * sumQ (fun i => mq Vt i y) I)) J &&
+  forallb (fun x => Qle_bool (sumQ (fun i => mq V i x) I) (2 * rho * (1 + fsum_slack) * sumQ (fun i => mq V i y) I)) J.   (* conclusion, for every x *)
 
 (* lambda-TSF: H1-H3 of tsf_distortion (eps floor included); the maximality of the chosen assignment is C04's certificate *)
 Definition tsf_hyp_case : Type := (list (list Q) * list (list Q) * list nat * list Q * Q * Q * nat)%type.
